@@ -447,6 +447,10 @@ func runScenario(sc *proto.Scenario, nSites int) (res *proto.Result) {
 		return kinds
 	}
 
+	if sc.Sched.Explicit == nil && sc.Sched.WritePreempt > 0 && len(sc.Tasks) > 1 {
+		wr := &rng{s: simrt.Mix(sc.Sched.Seed, 0x77a1)}
+		simrt.WriteHook = func() bool { return wr.intn(1000) < sc.Sched.WritePreempt }
+	}
 	// race detector: happens-before between operations = program order + After edges
 	hbMemo := map[[4]int]bool{}
 	var hb func(ta, oa, tb, ob int) bool
@@ -606,7 +610,7 @@ func runScenario(sc *proto.Scenario, nSites int) (res *proto.Result) {
 		opIdx := ts.cur
 		ran := int64(ts.t.OpSteps - stepsBefore)
 		kind := sc.Tasks[pick][opIdx].Kind
-		sl := proto.Slice{Task: pick, Steps: ran, Op: opIdx, Site: ts.t.LastSite}
+		sl := proto.Slice{Task: pick, Steps: ran, Op: opIdx, Site: ts.t.LastSite &^ simrt.WriteSite}
 		switch reason {
 		case simrt.AtBoundary:
 			sl.ToBoundary = true
@@ -706,6 +710,7 @@ func runScenario(sc *proto.Scenario, nSites int) (res *proto.Result) {
 			AtStep: rc.Curr.Step})
 	}
 	w.stats.Touches = simrt.Touches
+	w.stats.WriteYields = simrt.WriteYields
 	w.stats.Steps = simrt.Steps
 	w.stats.Slices = len(res.Schedule)
 	w.stats.Switches = sched.Switches
